@@ -151,13 +151,25 @@ def replay_script(pid, prog, model, schedule, extra=""):
     return head + (REPLAY_C14 if pid == "C14" else REPLAY_C13 % dict(extra=extra))
 
 
-def stall_signature(prog, model, schedule):
-    """where the waiter stands in the stall state (stable across runs)"""
+def stall_signature(prog, model, schedule, bmc=None, m=None):
+    """where the waiter stands in the stall state and how it got there (stable across runs): the recorded finding is the
+    waiter taking the receive lock while its reply is in the other thread's hands (received, not yet dispatched); a waiter
+    that walks into the blocking receive although its result was ALREADY there is a different defect"""
     last = None
     for (a_, pos, detail) in schedule:
         if a_ == 0:
             last = (detail.split(":")[0], pos)
-    return "stall:waiter-at-%s" % ("receive" if last and last[0] == "serve" else (last[0] if last else "?"))
+    sig = "stall:waiter-at-%s" % ("receive" if last and last[0] == "serve" else (last[0] if last else "?"))
+    if bmc is not None and m is not None:
+        sched = bmc.schedule(m)
+        tr = bmc.trace(m, ["ready1", "recvlock"])
+        entry_ready = None
+        for i, a_ in enumerate(sched):
+            if a_ == 0 and i + 1 < len(tr) and not tr[i]["recvlock"] and tr[i + 1]["recvlock"]:
+                entry_ready = tr[i]["ready1"]          # the waiter's last acquisition of the receive lock
+        if entry_ready:
+            sig += ":result-ready-at-entry"
+    return sig
 
 
 def check_c14(run):
@@ -181,10 +193,21 @@ def check_c14(run):
             raise Unsupported("engine B: stall query unknown/timeout")
         if r == "sat":
             sched = sm.trace_of(prog, model, bmc, m)
-            run.replay(o, stall_signature(prog, model, sched),
+            run.replay(o, stall_signature(prog, model, sched, bmc, m),
                        "the waiter's own reply has been dispatched by the background thread, yet the waiter is blocked in the receive "
                        "statement with an empty inbox (it re-entered serve() between notify_all() and _dispatch()); schedule of %d steps" % len(sched),
                        replay_script("C14", prog, model, sched))
+        # a second, separate query for any stall that is NOT the recorded finding: the waiter walks into the blocking receive
+        # although its own result was already there when it took the receive lock
+        r3, m3 = bmc.check(lambda S: z3.And(S.v["ready1"], model.blocked_in_poll(S, 0), S.v["eready0"]), at="any", timeout_ms=900000, cubes=3 if thorough else 0)
+        o.samples.append({"query": "reachable: blocked in the receive although the result was ready on entering serve()", "result": r3, "solver_s": round(bmc.last_time, 1)})
+        if r3 == "unknown":
+            raise Unsupported("engine B: second stall query unknown/timeout")
+        if r3 == "sat":
+            sched3 = sm.trace_of(prog, model, bmc, m3)
+            run.replay(o, stall_signature(prog, model, sched3, bmc, m3),
+                       "the waiter enters serve() and blocks in the receive statement although its own result was already there; schedule of %d steps" % len(sched3),
+                       replay_script("C14", prog, model, sched3))
         # The other conceivable shape -- asleep in Condition.wait, un-notified, result ready -- is not queried in this
         # configuration: with the background thread cut off after a bounded number of iterations it would be an artefact
         # of the bound (every further iteration of the real thread notifies), so it could raise a false alarm.
